@@ -74,18 +74,21 @@ class AvroWriter(AbstractWriter):
         self.writer.write(r._packdict())
 
     def flush(self):
-        if not self.writer:
-            self.writer = fastavro.write.Writer(
-                self.fp,
-                fastavro.parse_schema({"type": "record", "name": "empty"}),
-                codec=self.codec,
-            )
-        self.writer.flush()
+        if self.writer:
+            self.writer.flush()
 
     def close(self) -> None:
         if self.fp:
+            if not self.writer:
+                # No records were written, emit a header so the result is a valid (empty) Avro file.
+                # This must not happen earlier: a header-only writer makes later writes fail or vanish.
+                self.writer = fastavro.write.Writer(
+                    self.fp,
+                    fastavro.parse_schema({"type": "record", "name": "empty"}),
+                    codec=self.codec,
+                )
             # Records are buffered by the block writer, make sure they end up in the file
-            self.flush()
+            self.writer.flush()
         if self.fp and not is_stdout(self.fp):
             self.fp.close()
         self.fp = None
